@@ -902,11 +902,18 @@ impl Disk {
         self.writeback_directory_entry(loc,&entry)
     }
     /// Output FAT directory as a vector of paths that match a glob, calls itself recursively
-    fn glob_node(&mut self,pattern: &str,dir: &directory::Directory,case_sensitive: bool) -> Result<Vec<String>,DYNERR> {
+    fn glob_node(&mut self,pattern: &str,dir: &directory::Directory,case_sensitive: bool,visits: &mut u64) -> Result<Vec<String>,DYNERR> {
         // this blindly searches everywhere, we could be more efficient by truncating based on the pattern
         let mut files = Vec::new();
         if self.curr_path.len() > MAX_DIRECTORY_DEPTH {
             error!("directory nesting not plausible, aborting");
+            return Err(Box::new(Error::BadFAT));
+        }
+        // every sub-directory owns at least one cluster: a walk that enters more directories than
+        // the volume has clusters is going round a damaged directory graph
+        *visits += 1;
+        if *visits > self.boot_sector.cluster_count_usable() + 1 {
+            error!("directory count not plausible, aborting");
             return Err(Box::new(Error::BadFAT));
         }
         let glob = match case_sensitive {
@@ -939,7 +946,7 @@ impl Disk {
                         trace!("descend into directory {}",key);
                         let subdir = self.get_directory(&Some(ptr))?;
                         self.curr_path.push(key + "/");
-                        files.append(&mut self.glob_node(pattern,&subdir,case_sensitive)?);
+                        files.append(&mut self.glob_node(pattern,&subdir,case_sensitive,visits)?);
                     }
                 }
             }
@@ -948,9 +955,15 @@ impl Disk {
         Ok(files)
     }
     /// Output FAT directory as a JSON object, calls itself recursively
-    fn tree_node(&mut self,dir: &directory::Directory,include_meta: bool,depth: usize) -> Result<json::JsonValue,DYNERR> {
+    fn tree_node(&mut self,dir: &directory::Directory,include_meta: bool,depth: usize,visits: &mut u64) -> Result<json::JsonValue,DYNERR> {
         if depth > MAX_DIRECTORY_DEPTH {
             error!("directory nesting not plausible, aborting");
+            return Err(Box::new(Error::BadFAT));
+        }
+        // see glob_node
+        *visits += 1;
+        if *visits > self.boot_sector.cluster_count_usable() + 1 {
+            error!("directory count not plausible, aborting");
             return Err(Box::new(Error::BadFAT));
         }
         const DATE_FMT: &str = "%Y/%m/%d";
@@ -973,7 +986,7 @@ impl Disk {
                     if let Some(ptr) = finfo.cluster1 {
                         trace!("descend into directory {}",key);
                         let subdir = self.get_directory(&Some(ptr))?;
-                        files[&key]["files"] = self.tree_node(&subdir,include_meta,depth+1)?;
+                        files[&key]["files"] = self.tree_node(&subdir,include_meta,depth+1,visits)?;
                     }
                 }
                 if include_meta {
@@ -1120,17 +1133,19 @@ impl super::DiskFS for Disk {
     fn glob(&mut self,pattern: &str,case_sensitive: bool) -> Result<Vec<String>,DYNERR> {
         let (_,dir) = self.get_root_dir()?;
         self.curr_path = vec!["/".to_string()];
+        let mut visits = 0;
         if pattern.starts_with("/") {
-            self.glob_node(pattern, &dir,case_sensitive)
+            self.glob_node(pattern, &dir,case_sensitive,&mut visits)
         } else {
-            self.glob_node(&["/",pattern].concat(), &dir, case_sensitive)
+            self.glob_node(&["/",pattern].concat(), &dir, case_sensitive,&mut visits)
         }
     }
     fn tree(&mut self,include_meta: bool,indent: Option<u16>) -> Result<String,DYNERR> {
         let (vol,dir) = self.get_root_dir()?;
         let mut tree = json::JsonValue::new_object();
         tree["file_system"] = json::JsonValue::String(FS_NAME.to_string());
-        tree["files"] = self.tree_node(&dir,include_meta,0)?;
+        let mut visits = 0;
+        tree["files"] = self.tree_node(&dir,include_meta,0,&mut visits)?;
         tree["label"] = json::JsonValue::new_object();
         tree["label"]["name"] = json::JsonValue::String(vol);
         if let Some(spaces) = indent {
